@@ -119,23 +119,28 @@ Op(o, op) ==
                    file' = [file EXCEPT ![r] = f2]
               /\ buf' = buf
               /\ last' = [a |-> "op", o |-> o, op |-> op, ret |-> out.ret]
-       ELSE LET e0 == IF buf[r].e THEN buf[r] ELSE Fresh(file[r]) IN
-            \E out \in Apply(e0.doc, op, Fam) :
-            \E m \in (IF IsRead(op.op) THEN {e0.mod}
-                      ELSE IF IsErr(out.ret) \/ out.val = e0.doc THEN {e0.mod, TRUE}   \* nothing new to record
-                      ELSE {TRUE}) :
-            \* applied = FALSE: the capacity-forced flush triggered by bringing the file into the buffer
-            \* failed (BufferedError) before the operation itself was carried out
-            \E applied \in BOOLEAN :
-              LET e1 == IF applied THEN [e0 EXCEPT !.doc = IF IsRead(op.op) THEN e0.doc ELSE out.val, !.mod = m]
-                        ELSE e0
-                  b1 == [buf EXCEPT ![r] = e1]
-              IN \E x \in AfterCapacity(b1, file, cap) :
-                   /\ applied \/ x.errs # {}
-                   /\ buf' = x.buf
-                   /\ file' = x.file
-                   /\ last' = [a |-> "op", o |-> o, op |-> op,
-                               ret |-> IF x.errs = {} THEN out.ret ELSE ErrRet(x.errs)]
+       ELSE \* phase 1: the file is brought into the buffer (if it is not there); the buffer may
+            \* transiently exceed the capacity, which may force a flush - even for a read - before
+            \* the operation itself is carried out.  If that flush fails the operation raises.
+            LET e0 == IF buf[r].e THEN buf[r] ELSE Fresh(file[r])
+                b0 == [buf EXCEPT ![r] = e0]
+            IN \E x0 \in AfterCapacity(b0, file, cap) :
+                 IF x0.errs # {}
+                   THEN /\ buf' = x0.buf /\ file' = x0.file
+                        /\ last' = [a |-> "op", o |-> o, op |-> op, ret |-> ErrRet(x0.errs)]
+                   ELSE \* phase 2: the operation on the buffered copy (re-read if phase 1 evicted it)
+                        LET e0b == IF x0.buf[r].e THEN x0.buf[r] ELSE Fresh(x0.file[r]) IN
+                        \E out \in Apply(e0b.doc, op, Fam) :
+                          IF IsRead(op.op)
+                            THEN /\ buf' = x0.buf /\ file' = x0.file
+                                 /\ last' = [a |-> "op", o |-> o, op |-> op, ret |-> out.ret]
+                            ELSE \E m \in (IF IsErr(out.ret) \/ out.val = e0b.doc THEN {e0b.mod, TRUE} ELSE {TRUE}) :
+                                   LET e1 == [e0b EXCEPT !.doc = out.val, !.mod = m]
+                                       b1 == [x0.buf EXCEPT ![r] = e1]
+                                   IN \E x \in AfterCapacity(b1, x0.file, cap) :
+                                        /\ buf' = x.buf /\ file' = x.file
+                                        /\ last' = [a |-> "op", o |-> o, op |-> op,
+                                                    ret |-> IF x.errs = {} THEN out.ret ELSE ErrRet(x.errs)]
   /\ UNCHANGED <<stk, cap>>
 
 EnterObj(o) ==
